@@ -469,13 +469,25 @@ def _c(module, qualname):
 """
 
 
-def sub_snippet(facts):
+def sub_snippet(facts, wrapped=False):
     """facts: list of (a, b, expected) descriptions."""
     lines = [_SNIPPET_HEAD]
+    lines.append("def show(label, thunk, expected):")
+    lines.append("    try:")
+    lines.append("        got = thunk()")
+    lines.append("    except Exception as e:")
+    lines.append("        got = 'raises %s: %s' % (type(e).__name__, e)")
+    lines.append("    print(label, '=', got, '  expected', expected)")
+    lines.append("")
     for n, (a, b, exp) in enumerate(facts):
         lines.append("A%d = %s" % (n, _tcode(a)))
         lines.append("B%d = %s" % (n, _tcode(b)))
-        lines.append("print('deep_issubclass(A%d, B%d) =', deep_issubclass(A%d, B%d), ' expected %s')" % (n, n, n, n, exp))
+        lines.append("show('deep_issubclass(A%d, B%d)', lambda: deep_issubclass(A%d, B%d), %r)" % (n, n, n, n, exp))
+        if wrapped:
+            lines.append(
+                "show('issubclass(typing_wrap(A%d), typing_wrap(B%d))', lambda: issubclass(typing_wrap(A%d), typing_wrap(B%d)), %r)"
+                % (n, n, n, n, exp)
+            )
     return "\n".join(lines) + "\n"
 
 
@@ -616,8 +628,7 @@ def check_sub(case):
                             "features": pair_features(da, db, "wrapped-differs-from-unwrapped"),
                             "message": "issubclass(typing_wrap(%s), typing_wrap(%s)) = %s but deep_issubclass on the "
                             "unwrapped types = %s (structural rule %s)" % (text, m["texts"][j], wv, f, r),
-                            "snippet": sub_snippet([(da, db, r)])
-                            + "print('wrapped:', issubclass(typing_wrap(A0), typing_wrap(B0)))\n",
+                            "snippet": sub_snippet([(da, db, r)], wrapped=True),
                         }
                     )
             elif r is not None and wv != r:
@@ -635,8 +646,7 @@ def check_sub(case):
                         "message": "issubclass(typing_wrap(%s), typing_wrap(%s)) = %s (deep_issubclass on the unwrapped "
                         "types raises TypeError, the wrapper retries with the origin of the left type); structural rule "
                         "says %s" % (text, m["texts"][j], wv, r),
-                        "snippet": sub_snippet([(da, db, r)])
-                        + "print('wrapped:', issubclass(typing_wrap(A0), typing_wrap(B0)))\n",
+                        "snippet": sub_snippet([(da, db, r)], wrapped=True),
                     }
                 )
     # transitivity: a <= b and b <= c  must not give  a <= c False
